@@ -22,7 +22,7 @@ struct Group {
     tag: [u8; 32],
 }
 
-const EPOCHS: &[&str] = &["", "t", "epoch-1", "2024-W07", "é", "日本語のエポック", "😀", "a\u{0301}b", "line\nbreak", "quote\"s"];
+const EPOCHS: &[&str] = &["", "t", "epoch-1", "2024-W07", "é", "日本語のエポック", "😀", "a\u{0301}b", "line\nbreak", "quote\"s", "7", "7 ", " 7", "7\n", "7\u{a0}", " ", "\t", "\u{3000}x"];
 
 impl Property for C17 {
     fn id(&self) -> &'static str {
@@ -146,12 +146,23 @@ impl Property for C17 {
                 saw_some = true;
                 ctx.stats.probe("group_key_recovered");
                 // another epoch never yields the clients' key
-                let other = EPOCHS.iter().find(|e| **e != g.epoch).unwrap();
-                let r2 = guarded(|| star_wasm::group_shares(&joined, other)).map_err(|(loc, msg)| Violation::new("c17.panic", "group_shares", format!("{} {}", loc, msg)))?;
-                if r2.as_deref() == Some(want.as_str()) {
-                    return Err(Violation::new("c17.wrong_epoch", "wrong_epoch", format!("group_shares with epoch {:?} returned the key of clients who used epoch {:?}", other, g.epoch)));
+                // an unrelated epoch and the NEIGHBOURS of the clients' epoch (whitespace added or
+                // trimmed, case changed, a byte appended)
+                let mut others: Vec<String> = vec![EPOCHS.iter().find(|e| **e != g.epoch).unwrap().to_string()];
+                others.push(format!("{} ", g.epoch));
+                others.push(format!(" {}", g.epoch));
+                others.push(format!("{}\n", g.epoch));
+                others.push(g.epoch.trim().to_string());
+                others.push(g.epoch.to_uppercase());
+                others.push(format!("{}\u{0}", g.epoch));
+                others.retain(|o| o != &g.epoch);
+                for other in others {
+                    let r2 = guarded(|| star_wasm::group_shares(&joined, &other)).map_err(|(loc, msg)| Violation::new("c17.panic", "group_shares", format!("{} {}", loc, msg)))?;
+                    if r2.as_deref() == Some(want.as_str()) {
+                        return Err(Violation::new("c17.wrong_epoch", "wrong_epoch", format!("group_shares with epoch {:?} returned the key of clients who used epoch {:?}", other, g.epoch)));
+                    }
+                    ctx.stats.probe("wrong_epoch_checked");
                 }
-                ctx.stats.probe("wrong_epoch_checked");
             } else {
                 if res.is_some() {
                     return Err(Violation::new("c17.group_subthreshold", "some_below_threshold", format!("group {} (t={}): only {} distinct shares arrived but group_shares returned a key", gi, g.t, d)));
